@@ -465,7 +465,7 @@ Qed.
 Lemma kind_labels_nodup k :
   NoDup (map fst (k_ins (kind_spec k))) /\ NoDup (k_outs (kind_spec k)).
 Proof.
-  do 9 (destruct k as [|k]; [simpl; split; repeat (constructor; [simpl; intuition discriminate|]); constructor|]).
+  do 11 (destruct k as [|k]; [simpl; split; repeat (constructor; [simpl; intuition discriminate|]); constructor|]).
   simpl. split; constructor.
 Qed.
 
@@ -816,6 +816,13 @@ Proof.
     destruct (negb (forallb (fun kv => mems (fst kv) (map fst p)) kw)); [exact W|].
     eapply wfs_same; [apply assign_all_graph|exact W].
   - eapply wfs_same; [apply pull_graph|exact W].
+  - unfold item_assign. destruct (build_io st DIn) as [p|]; [|exact W].
+    destruct (assoc String.eqb key p); simpl; [|exact W]. eapply wfs_same; [|exact W]. repeat split.
+  - unfold wconnect2. destruct (build_io st DOut) as [po|]; [|exact W].
+    destruct (assoc String.eqb okey po); [|exact W].
+    destruct (build_io st DIn) as [p|]; [|exact W].
+    destruct (assoc String.eqb key p); simpl; [|exact W].
+    eapply wfs_same; [apply connect_ids_struct|exact W].
 Qed.
 
 Lemma run_ops_wfs ops : forall st, wfs st -> wfs (run_ops st ops).
@@ -1403,4 +1410,39 @@ Proof.
   apply assign_all_reaches with (k := k); try assumption.
   - now apply entries_ids_nodup.
   - now apply In_assoc_nodup.
+Qed.
+
+(* ---- item access: panel[key] ------------------------------------------------------------------------ *)
+(* wf.inputs[key].value = v reaches exactly the channel the panel holds under key, whatever the key
+   is called (a name of one of the panel's own attributes included) *)
+Theorem item_assign_through st key v st' :
+  item_assign st key v = (st', ROk) ->
+  exists p id, build_io st DIn = Some p /\ In (key, id) p /\
+    val st' id = Some v /\ (forall id', id' <> id -> val st' id' = val st id') /\ same_graph st st'.
+Proof.
+  unfold item_assign. destruct (build_io st DIn) as [p|] eqn:E; [|discriminate].
+  destruct (assoc String.eqb key p) as [id|] eqn:A; [|discriminate].
+  intros [= <-]. exists p, id. split; [reflexivity|]. split; [now apply assoc_In|].
+  unfold val, set_val; simpl. split; [apply assoc_upd_same|]. split; [|repeat split].
+  intros id' Hne. now apply assoc_upd_other.
+Qed.
+
+Theorem wconnect2_through st key okey st' :
+  wconnect2 st key okey = (st', ROk) ->
+  exists p po id o, build_io st DIn = Some p /\ build_io st DOut = Some po /\
+    In (key, id) p /\ In (okey, o) po /\ In (id, o) (w_conns st') /\
+    connected st' id = true /\ connected st' o = true /\ same_struct st st'.
+Proof.
+  unfold wconnect2. destruct (build_io st DOut) as [po|]; [|discriminate].
+  destruct (assoc String.eqb okey po) as [o|] eqn:B; [|discriminate].
+  destruct (build_io st DIn) as [p|]; [|discriminate].
+  destruct (assoc String.eqb key p) as [id|] eqn:A; [|discriminate].
+  intros [= <-]. exists p, po, id, o. repeat split; try reflexivity; try apply connect_ids_struct.
+  - now apply assoc_In.
+  - now apply assoc_In.
+  - apply connect_ids_in.
+  - unfold connected. apply existsb_exists. exists (id, o). split; [apply connect_ids_in|].
+    unfold touches; simpl. now rewrite Nat.eqb_refl.
+  - unfold connected. apply existsb_exists. exists (id, o). split; [apply connect_ids_in|].
+    unfold touches; simpl. rewrite Nat.eqb_refl. apply orb_true_r.
 Qed.
